@@ -87,7 +87,7 @@ func NewRun(prop, tier, level string, seed int64) *Run {
 	return r
 }
 
-func (r *Run) Assume(s string)       { r.mu.Lock(); r.assumptions = append(r.assumptions, s); r.mu.Unlock() }
+func (r *Run) Assume(s string)          { r.mu.Lock(); r.assumptions = append(r.assumptions, s); r.mu.Unlock() }
 func (r *Run) SetExtra(k string, v any) { r.mu.Lock(); r.extra[k] = v; r.mu.Unlock() }
 func (r *Run) AddScenario(s ScenarioStat) {
 	r.mu.Lock()
